@@ -20,6 +20,7 @@ import numpy as np
 
 import common
 import stepsize_gen as G
+import stepsize_translate
 from common import ModelErr, b2f, f2b
 
 PROP = "C16"
@@ -1031,6 +1032,16 @@ def oracle_scale(case):
     return None
 
 
+def generate(ctx):
+    """translator: class table with constructor defaults, isinstance dispatch of the two step methods and the statement
+    skeletons of every transcribed method, read from the working tree with `ast`, against the model's tables"""
+    stepsize_translate.generate()
+    return [("Scico.Generated.StepSizeTables",
+             "step-size classes (bases, constructor parameters and defaults kappa/gamma_u/gamma_d/maxiter), the update argument and "
+             "isinstance classes of PGM.step / AcceleratedPGM.step, and the normalised statements of every modelled method of "
+             "_pgmaux.py / _pgm.py equal the model's tables (Model/StepSizeSource.lean)")]
+
+
 def findings(ctx, model):
     """no listed finding of the current tree concerns C16 (the four defects found were repaired: see the
     `fixed:` lines of known_findings.txt; their witnesses are regression cases in corpus/C16)"""
@@ -1040,7 +1051,23 @@ def findings(ctx, model):
 def search(ctx, model, why):
     """failing-input search on the implementation alone (thorough tier): the property oracle on fresh runs"""
     common.setup_scico()
-    for _ in range(ctx.n(0, 150)):
+    if why is not None:
+        # a generated obligation no longer checks (the source differs from the model's tables): look for an input on which
+        # the property itself fails — crafted boundary cases, the exhaustive stub patterns, then fresh random runs (any tier)
+        for case in G.crafted_cases():
+            r = oracle(case)
+            if r is not None:
+                return {"case": _light(case), "failing": r}
+        import itertools
+
+        for maxiter in range(0, 4):
+            for acc in itertools.product([False, True, None], repeat=maxiter):
+                for kind in ("ls", "rls"):
+                    c = {"what": "stub-search", "kind": kind, "L": 3.0, "gu": 2.0, "gd": 0.5, "maxiter": maxiter, "accepts": list(acc)}
+                    r = _oracle_stub_search(c)
+                    if r is not None:
+                        return {"case": c, "failing": r}
+    for _ in range(ctx.n(0, 150) if why is None else 60):
         p = G.gen_problem(ctx.rng)
         pol = G.gen_policy(ctx.rng)
         case = {**p, "policy": pol, "accel": bool(ctx.rng.integers(0, 2)), "steps": int(ctx.rng.integers(2, 12))}
